@@ -80,7 +80,9 @@ def run(res):
         "evaluations": len(cases),
         "distinct_nontrivial": len(nontrivial),
         "rule": "scenarios: holder / counterparty commitment x {0,1,2} HTLCs (offered/received, preimage known or not) x "
-                "our output present or not; systematic: every cut of the canonical sequences (funding, mutual close | "
+                "our output present or not, plus lockstep variants (holder and counterparty commitment with the same number and the "
+                "mirrored HTLC set both held, either one confirms; close kind and claimable HTLC outputs predicted from how "
+                "the confirmed transaction was built); systematic: every cut of the canonical sequences (funding, mutual close | "
                 "double spends | commitment, sweep, HTLC spends, second-level spends, joint HTLC spend) into <= 4 blocks, "
                 "then a reorg of depth 1..4 re-connecting the same blocks or their merge; random: walks over "
                 "{connect a block of 0-4 fitting transactions, disconnect (runs <= 4)}; malformed: the same with "
